@@ -31,6 +31,8 @@ def pack_uint(v, n):
     ''' n-octet big-endian encoding of a symbolic or concrete uint (caller checks range). '''
     if not is_sym(v):
         return int(v).to_bytes(n, 'big')
+    if v.bsrc is not None and len(v.bsrc) <= n:
+        return SBuf.mk([Lit([0] * (n - len(v.bsrc)) + list(v.bsrc))])
     items = []
     for i in reversed(range(n)):
         e = z3.simplify((v.e / (256 ** i)) % 256)
@@ -58,6 +60,8 @@ def unpack_uint(items):
     r = 0
     for it in items:
         r = r * 256 + it
+    if isinstance(r, SInt):
+        r = SInt(r.e, bsrc=tuple(items))
     return r
 
 
